@@ -46,3 +46,51 @@ pub fn it_into_map<T, U, F: Fn(T) -> U>(v: Vec<T>, f: F) -> (r: Vec<U>)
     ensures r@.len() == v@.len() && forall|i: int| 0 <= i < v@.len() ==> f.ensures((v@[i],), #[trigger] r@[i])
 { unimplemented!() }
 } // verus!
+verus! {
+/// `v.iter().map(f).collect::<Vec<_>>()` on a slice (elements mapped in order)
+#[verifier::external_body]
+pub fn it_map_collect<'a, T, U, F: Fn(&'a T) -> U>(v: &'a [T], f: F) -> (r: Vec<U>)
+    requires forall|i: int| 0 <= i < v@.len() ==> f.requires((&v@[i],))
+    ensures r@.len() == v@.len() && forall|i: int| 0 <= i < v@.len() ==> f.ensures((&v@[i],), #[trigger] r@[i])
+{ unimplemented!() }
+
+/// total order on strings (`Ord for String`: lexicographic by bytes; only its order axioms are used)
+pub uninterp spec fn str_le(a: Seq<char>, b: Seq<char>) -> bool;
+pub broadcast axiom fn ax_str_le_antisym(a: Seq<char>, b: Seq<char>) ensures #[trigger] str_le(a, b) && #[trigger] str_le(b, a) ==> a == b;
+pub broadcast axiom fn ax_str_le_trans(a: Seq<char>, b: Seq<char>, c: Seq<char>) ensures #[trigger] str_le(a, b) && #[trigger] str_le(b, c) ==> str_le(a, c);
+/// `p` is a bijection of 0..n
+pub open spec fn is_perm(p: Seq<int>, n: int) -> bool {
+    p.len() == n && (forall|i: int| 0 <= i < n ==> 0 <= #[trigger] p[i] < n)
+    && (forall|i: int, j: int| 0 <= i < j < n ==> p[i] != p[j])
+    && (forall|a: int| 0 <= a < n ==> #[trigger] perm_hits(p, n, a))
+}
+pub open spec fn perm_hits(p: Seq<int>, n: int, a: int) -> bool { exists|i: int| 0 <= i < n && #[trigger] p[i] == a }
+/// `Vec<&String>::sort()` (slice::sort, stable): the result is a permutation of the input, ascending in `str_le`
+#[verifier::external_body]
+pub fn vec_sort_strs(v: &mut Vec<&String>)
+    ensures exists|p: Seq<int>| is_perm(p, old(v)@.len() as int) && final(v)@.len() == old(v)@.len()
+            && forall|i: int| 0 <= i < final(v)@.len() ==> #[trigger] final(v)@[i] == old(v)@[p[i]],
+        forall|i: int, j: int| 0 <= i <= j < final(v)@.len() ==> str_le(#[trigger] final(v)@[i]@, #[trigger] final(v)@[j]@),
+{ unimplemented!() }
+/// consecutive equal elements collapsed to the first of each run
+pub open spec fn dedup_spec(s: Seq<&String>) -> Seq<&String> decreases s.len() {
+    if s.len() <= 1 { s } else if s[s.len() - 2]@ == s.last()@ { dedup_spec(s.drop_last()) } else { dedup_spec(s.drop_last()).push(s.last()) }
+}
+/// `Vec<&String>::dedup()`
+#[verifier::external_body]
+pub fn vec_dedup_strs(v: &mut Vec<&String>) ensures final(v)@ == dedup_spec(old(v)@) { unimplemented!() }
+pub proof fn lemma_dedup_len(s: Seq<&String>)
+    ensures dedup_spec(s).len() <= s.len(), s.len() >= 1 ==> dedup_spec(s).len() >= 1,
+        dedup_spec(s).len() == s.len() ==> forall|i: int| 0 <= i < s.len() - 1 ==> (#[trigger] s[i])@ != s[i + 1]@
+    decreases s.len()
+{
+    if s.len() > 1 {
+        lemma_dedup_len(s.drop_last());
+        if s[s.len() - 2]@ != s.last()@ && dedup_spec(s).len() == s.len() {
+            assert forall|i: int| 0 <= i < s.len() - 1 implies (#[trigger] s[i])@ != s[i + 1]@ by {
+                if i < s.len() - 2 { assert(s.drop_last()[i] == s[i] && s.drop_last()[i + 1] == s[i + 1]); }
+            }
+        }
+    }
+}
+} // verus!
